@@ -222,7 +222,8 @@ func (o *mObj) matches(got string) error {
 			return fmt.Errorf("hash object: got %s, want a Point", clipStr(got, 200))
 		}
 		lat, lon := p.Coordinates[1], p.Coordinates[0]
-		if lat < o.cell[0] || lat > o.cell[2] || lon < o.cell[1] || lon > o.cell[3] {
+		const eps = 1e-9 // the decoded centre is rounded and may sit on the cell's edge
+		if lat < o.cell[0]-eps || lat > o.cell[2]+eps || lon < o.cell[1]-eps || lon > o.cell[3]+eps {
 			return fmt.Errorf("hash object %s: point %v,%v outside cell %v", o.hash, lat, lon, o.cell)
 		}
 		return nil
